@@ -31,7 +31,10 @@ def one(proj: str, q: dict) -> list:
 	from harness.c04 import RealSession
 	cache = tempfile.mkdtemp(prefix='c04-fresh-')
 	try:
-		ses = RealSession(proj, cache)
+		try:
+			ses = RealSession(proj, cache)
+		except Exception as e:  # noqa: BLE001
+			return ['app-error', canon(e)]
 		if 'module' in q:
 			kind, payload = ses.transpile(q['module'])
 		else:
